@@ -1,6 +1,6 @@
 From Coq Require Import ZArith List Bool Lia.
 From Arsenal Require Import Util.
-From Arsenal Require VamDev VamBlockList Vam VamInv VamInvThm VamAcctThm VamMap VamMapThm VamDefrag VamDefragThm VamDefragAcct VamDefragMap.
+From Arsenal Require VamDev VamBlockList Vam VamInv VamInvThm VamAcctThm VamMap VamMapThm VamDefrag VamDefragThm VamDefragAcct VamDefragMap VamBal VamBalThm VamDefragBal.
 From Arsenal Require Import SyncMem SyncMemProofs.
 Import ListNotations.
 Open Scope Z_scope.
@@ -83,4 +83,43 @@ Theorem C14_allocator_block_mapping_agrees_defrag : forall c v run lr l b,
     (SyncMem.mapped (bk_sm b) = true <-> 0 < SyncMem.mapRefs (bk_sm b) \/ SyncMem.extra (bk_sm b) = true).
 Proof. intros c v run lr l b Ha. exact (VamDefragMap.block_mapping_agrees_defrag c Ha v run lr l b). Qed.
 Print Assumptions C14_allocator_block_mapping_agrees_defrag.
+(* Per-user balance.  G s = number of outstanding user Maps of Allocation object s (ghost; gstep: +1 on a
+   successful Map, -1 on a successful Unmap).  reachB = reachable states of histories whose callers obey
+   "no Unmap without a Map; Free / Destroy only without outstanding user maps" (op_bal; in Go these calls block
+   on or misuse Allocation.mapLock).  Then the reference count of every block's memory is exactly the sum of
+   its users' outstanding maps plus one per persistently mapped allocation, a user pointer or a persistent
+   mapping never dangles (the memory object is alive and mapped), a failed Map changes no count, and freeing an
+   allocation drops exactly its own persistent reference.  reachDB: the same along histories with
+   defragmentation (no source of a pending move has an outstanding user Map at EndDefragPass). *)
+Theorem C14_allocator_block_refs_balance : forall c v G lr l b,
+  cfg_acct c -> VamBalThm.reachB c v G -> get_blist v lr = Some l -> List.In b (bl_blocks l) ->
+  SyncMem.mapRefs (bk_sm b) = VamBal.refs_truth v G nil (bk_mem b).
+Proof. intros c v G lr l b Ha. exact (VamBalThm.block_refs_balance c Ha v G lr l b). Qed.
+Print Assumptions C14_allocator_block_refs_balance.
+
+Theorem C14_allocator_mapped_while_in_use : forall c v G s a,
+  cfg_acct c -> VamBalThm.reachB c v G -> slot_is v s a -> (1 <= G s \/ a_persist a = true) ->
+  exists d, find_mem (m_mems (v_m v)) (a_mem a) = Some d /\ dm_mapped d = true.
+Proof. intros c v G s a Ha. exact (VamBalThm.mapped_while_in_use c Ha v G s a). Qed.
+Print Assumptions C14_allocator_mapped_while_in_use.
+
+Theorem C14_allocator_mapped_while_in_use_defrag : forall c v run G s a,
+  cfg_acct c -> VamDefragBal.reachDB c v run G -> slot_is v s a -> (1 <= G s \/ a_persist a = true) ->
+  exists d, find_mem (m_mems (v_m v)) (a_mem a) = Some d /\ dm_mapped d = true.
+Proof. intros c v run G s a Ha. exact (VamDefragBal.mapped_while_in_use_defrag c Ha v run G s a). Qed.
+Print Assumptions C14_allocator_mapped_while_in_use_defrag.
+
+Theorem C14_allocator_free_drops_own_reference : forall c v G s a f v' calls,
+  cfg_acct c -> VamBalThm.reachB c v G -> slot_is v s a -> a_kind a = 1 -> G s = 0 ->
+  step c v (OFree s) f = (v', ROk, calls) ->
+  forall lr l' b', get_blist v' lr = Some l' -> List.In b' (bl_blocks l') -> bk_mem b' = a_mem a ->
+  SyncMem.mapRefs (bk_sm b') = VamBal.refs_truth v G nil (a_mem a) - (if a_persist a then 1 else 0).
+Proof. intros c v G s a f v' calls Ha. exact (VamBalThm.free_drops_own_reference c Ha v G s a f v' calls). Qed.
+Print Assumptions C14_allocator_free_drops_own_reference.
+
+Theorem C14_allocator_failed_map_keeps_balance : forall c v G s f v' code calls,
+  cfg_acct c -> VamBalThm.reachB c v G -> op_ok v (OMap s) -> step c v (OMap s) f = (v', RErr code, calls) ->
+  VamBal.BInv v' G nil.
+Proof. intros c v G s f v' code calls Ha. exact (VamBalThm.failed_map_keeps_balance c Ha v G s f v' code calls). Qed.
+Print Assumptions C14_allocator_failed_map_keeps_balance.
 End Allocator.
